@@ -89,6 +89,7 @@ class Log:
         self.steps = []
         self.bad = []
         self.replies = {}         # step -> JSON text the REPLY command produced
+        self.reply_list = []      # (step, conn, k, text)
         step = -1
         cur_snap = None
         for ln in lines:
@@ -189,6 +190,7 @@ class Log:
                 self.exit_heap = int(w[1].split("=")[1])
             elif k == "REPLYTEXT":
                 self.replies[step] = unhex(w[3])
+                self.reply_list.append((step, int(w[1][1:]), int(w[2]), unhex(w[3])))
             elif k in ("BADCMD", "BADBATCH", "FATAL"):
                 self.bad.append(ln)
 
